@@ -203,9 +203,18 @@ func runC11(payload string) string {
 		return ts[0]
 	}
 	tmpl, goal, inst := dec1(f[3]), dec1(f[4]), dec1(f[5])
-	pre := engine.Term(atom("true"))
-	for j := len(binds) - 1; j >= 0; j-- {
-		pre = compound(",", binds[j], pre)
+	// The call-time bindings are made with Env.Unify and the built-in is invoked directly (not through
+	// call/1, which would run it on renamed clause variables): the variables the built-in sees are
+	// V0..Vk themselves, V<i> older than V<j> for i < j, all older than any variable created later.
+	var env0 *engine.Env
+	for _, b := range binds {
+		c, ok := b.(engine.Compound)
+		if !ok || c.Arity() != 2 {
+			panic("c11: bad binding")
+		}
+		if env0, ok = env0.Unify(c.Arg(0), c.Arg(1)); !ok {
+			panic("c11: binding does not unify")
+		}
 	}
 
 	ctx, cancel := context.WithTimeout(context.Background(), 10*time.Second)
@@ -232,26 +241,23 @@ func runC11(payload string) string {
 	solTerm := atom("s").Apply(qvTerms...)
 	var sols []string
 	witnessClasses := map[string]int{}
-	nfv := 0
-	_, gerr := engine.Call(vm, pre, func(env *engine.Env) *engine.Promise {
-		g := goal
-		var wv []engine.Variable
-		if kind != "findall" {
-			g = c11Strip(goal, env)
-			wv = c11Witness(goal, tmpl, env)
-			nfv = len(wv)
-		}
-		wts := make([]engine.Term, len(wv))
-		for n := range wv {
-			wts[n] = wv[n]
-		}
-		return engine.Call(vm, g, func(env *engine.Env) *engine.Promise {
-			sols = append(sols, "sol "+c11Wire(solTerm, env, name))
-			vn := newVarNamer()
-			witnessClasses[c11Wire(atom("w").Apply(wts...), env, vn.name)]++
-			return engine.Bool(false)
-		}, env)
-	}, nil).Force(ctx)
+	g := goal
+	var wv []engine.Variable
+	if kind != "findall" {
+		g = c11Strip(goal, env0)
+		wv = c11Witness(goal, tmpl, env0)
+	}
+	nfv := len(wv)
+	wts := make([]engine.Term, len(wv))
+	for n := range wv {
+		wts[n] = wv[n]
+	}
+	_, gerr := engine.Call(vm, g, func(env *engine.Env) *engine.Promise {
+		sols = append(sols, "sol "+c11Wire(solTerm, env, name))
+		vn := newVarNamer()
+		witnessClasses[c11Wire(atom("w").Apply(wts...), env, vn.name)]++
+		return engine.Bool(false)
+	}, env0).Force(ctx)
 	left := strings.Join(sols, " ; ")
 	if left != "" {
 		left += " ; "
@@ -263,14 +269,19 @@ func runC11(payload string) string {
 	}
 
 	// 2. the real call
-	query := compound(",", pre, compound(kind, tmpl, goal, inst))
+	builtin := map[string]func(*engine.VM, engine.Term, engine.Term, engine.Term, engine.Cont, *engine.Env) *engine.Promise{
+		"findall": engine.FindAll, "bagof": engine.BagOf, "setof": engine.SetOf,
+	}[kind]
+	if builtin == nil {
+		panic("c11: bad kind " + kind)
+	}
 	qTerm := compound("q", tmpl, goal, inst)
 	var answers []string
-	_, err := engine.Call(vm, query, func(env *engine.Env) *engine.Promise {
+	_, err := builtin(vm, tmpl, goal, inst, func(env *engine.Env) *engine.Promise {
 		vn := newVarNamer()
 		answers = append(answers, "ans "+c11Wire(qTerm, env, vn.name))
 		return engine.Bool(false)
-	}, nil).Force(ctx)
+	}, env0).Force(ctx)
 	var right string
 	switch {
 	case err != nil:
@@ -421,7 +432,7 @@ func (g *c11g) program(tier string) ([]string, []c11pred) {
 		if tier == "thorough" && r.Intn(4) == 0 {
 			n += r.Intn(6)
 		}
-		if r.Intn(15) == 0 {
+		if r.Intn(40) == 0 {
 			n = 0
 		}
 		dom := 1 + r.Intn(3)
@@ -489,12 +500,12 @@ func (g *c11g) goalArg() string {
 		k = r.Intn(16)
 	}
 	switch {
-	case k < 13:
+	case k < 14:
 		return wV(g.goalVar())
 	case k < 15:
-		return wI(1 + r.Intn(3))
+		return wI(1 + r.Intn(2))
 	case k < 16:
-		return wA(pick(r, []string{"a", "b", "c"}))
+		return wA(pick(r, []string{"a", "b"}))
 	case k < 18:
 		return wC("f", wV(g.goalVar()))
 	case k < 19:
@@ -546,8 +557,11 @@ func (g *c11g) atomicGoal(preds []c11pred) string {
 	case k < 17:
 		return wC("=", wV(g.goalVar()), g.goalArg())
 	case k < 18:
-		return wA(pick(r, []string{"true", "fail"}))
-	case k < 19:
+		if r.Intn(3) == 0 {
+			return wA(pick(r, []string{"true", "fail"}))
+		}
+		return wC("\\+", wC("=", wV(g.goalVar()), wI(1)))
+	case k < 19 && r.Intn(2) == 0:
 		// goals that raise errors
 		switch r.Intn(5) {
 		case 0:
@@ -564,7 +578,12 @@ func (g *c11g) atomicGoal(preds []c11pred) string {
 				wC("is", wV(g.fresh()), wC("+", wV(x), wI(1))))
 		}
 	default:
-		return wC("\\+", wC("=", wV(g.goalVar()), wI(1)))
+		p := pick(r, preds)
+		args := make([]string, p.arity)
+		for i := range args {
+			args[i] = wV(g.goalVar())
+		}
+		return wC(p.name, args...)
 	}
 }
 
